@@ -8,14 +8,14 @@ import re
 from harness import core, htmlnorm, treegen, trees, xdoc
 
 GEN = ['gen_tables', 'gen_regex', 'gen_config', 'gen_escapes', 'gen_core']
-THEOREMS = ['C03_fragment_autolink_instance', 'C03_autolink_in_sentence', 'C03_autolink_hypotheses', 'C03_titled_link_in_sentence', 'C03_titled_link_instance', 'C03_fragment_nested_emphasis_instance', 'C03_backslash_break', 'C03_backslash_break_hypotheses', 'C03_one_in_sentence', 'C03_fragment_one_instance', 'C03_fragment_breaks_instance', 'C03_breaks_in_paragraph_text', 'C03_breaks_instance', 'C03_image_in_sentence', 'C03_strike_in_sentence', 'C03_strike_in_sentence_hypotheses', 'C03_escape_in_sentence', 'C03_escape_in_sentence_hypotheses', 'C03_code_in_sentence', 'C03_code_in_sentence_hypotheses', 'C03_fragment_code_instance', 'C03_fragment_sentence_instance', 'C03_mixed_phrases', 'C03_mixed_phrases_instance', 'C03_link_phrases', 'C03_link_phrases_instance', 'C03_link_in_sentence', 'C03_fragment_link_instance', 'C03_fragment_seq_document', 'C03_fragment_seq_html', 'C03_fragment_lists_instance', 'C03_fragment_inert_instance', 'C03_fragment_emphasis_instance', 'C03_fragment_rules_instance', 'C03_thematic_break', 'C03_thematic_configs', 'C03_setext_heading', 'C03_setext_hypotheses', 'C03_indented_code_block', 'C03_indented_code_hypotheses', 'C03_link_scanners_are_the_source', 'C03_fragment_parses', 'C03_fragment_token_tree', 'C03_fragment_hypotheses', 'C03_fragment_fuel_suffices', 'C03_fragment_document',
+THEOREMS = ['C03_angle_link_in_sentence', 'C03_angle_link_instance', 'C03_fragment_autolink_instance', 'C03_autolink_in_sentence', 'C03_autolink_hypotheses', 'C03_titled_link_in_sentence', 'C03_titled_link_instance', 'C03_fragment_nested_emphasis_instance', 'C03_backslash_break', 'C03_backslash_break_hypotheses', 'C03_one_in_sentence', 'C03_fragment_one_instance', 'C03_fragment_breaks_instance', 'C03_breaks_in_paragraph_text', 'C03_breaks_instance', 'C03_image_in_sentence', 'C03_strike_in_sentence', 'C03_strike_in_sentence_hypotheses', 'C03_escape_in_sentence', 'C03_escape_in_sentence_hypotheses', 'C03_code_in_sentence', 'C03_code_in_sentence_hypotheses', 'C03_fragment_code_instance', 'C03_fragment_sentence_instance', 'C03_mixed_phrases', 'C03_mixed_phrases_instance', 'C03_link_phrases', 'C03_link_phrases_instance', 'C03_link_in_sentence', 'C03_fragment_link_instance', 'C03_fragment_seq_document', 'C03_fragment_seq_html', 'C03_fragment_lists_instance', 'C03_fragment_inert_instance', 'C03_fragment_emphasis_instance', 'C03_fragment_rules_instance', 'C03_thematic_break', 'C03_thematic_configs', 'C03_setext_heading', 'C03_setext_hypotheses', 'C03_indented_code_block', 'C03_indented_code_hypotheses', 'C03_link_scanners_are_the_source', 'C03_fragment_parses', 'C03_fragment_token_tree', 'C03_fragment_hypotheses', 'C03_fragment_fuel_suffices', 'C03_fragment_document',
             'C03_fragment_html', 'C03_fragment_markdown_html', 'C03_fragment_html_instance', 'C03_fragment_paragraph_lines_instance', 'C03_fragment_headings_instance', 'C03_outline_lists', 'C03_outline_html', 'C03_outline_instance',
             'C03_fragment_document_markdown', 'C03_fragment_document_configs', 'C03_bounded_trees', 'C03_family_is_not_vacuous']
 TRUSTED = ['harness/treegen.py: the tree grammar, the speller (every free choice drawn and counted) and the direct HTML writer - the independent oracle; '
            'harness/htmlnorm.py: CommonMark\'s test normalisation',
            'Spec/Spell.v: the Coq twin of the grammar for the kernel sweep (independent of the parser model)',
            'the pipeline model (tied by X-doc on the generated texts); vm_compute for the sweep']
-ASSUMPTIONS = ['unbounded theorem on a fragment: paragraphs of one or more lines (inert delimiters; lines ending in spaces), one-line paragraphs with inline markup (emphasised phrases and links mixed, a code span, strikethrough, escape, image, link with a title (in double quotes, single quotes or parentheses), nested emphasis), ATX headings, thematic breaks, fenced code blocks, quotes and lists of one or more items (all markers, padding 1-4), any size and depth, '
+ASSUMPTIONS = ['unbounded theorem on a fragment: paragraphs of one or more lines (inert delimiters; lines ending in spaces), one-line paragraphs with inline markup (emphasised phrases and links mixed, a code span, strikethrough, escape, image, link with a title (in double quotes, single quotes or parentheses), link with its destination between angle brackets, nested emphasis), ATX headings, thematic breaks, fenced code blocks, quotes and lists of one or more items (all markers, padding 1-4), any size and depth, '
                'two lists never adjacent siblings: the block tokenizer returns exactly the pre-token tree written from the tree (C03_fragment_parses), and Document(lines) - with the fuel it really gives, proved sufficient - holds exactly the token tree written from the tree under every renderer\'s token sets (C03_fragment_document, _markdown), and the HTML renderer model writes for it exactly the HTML written directly from the tree, also when the text is one string (C03_fragment_html, C03_fragment_markdown_html); the fragment '
                'stream runs the same trees on the implementation',
                'PARTIAL beyond the fragment: in the kernel the HTML statement is bounded to the family stated in C03_bounded_trees; the full grammar is sampled on the implementation',
@@ -125,9 +125,9 @@ def frag_tree(rng, depth):
         if rng.random() < 0.12:                              # a one-line paragraph with a struck-through phrase, a backslash escape or an image (leaf FOne)
             pre = ' '.join([rng.choice(FRAG_FIRST)] + [rng.choice(EM_WORDS) for _ in range(rng.randint(0, 3))]) + rng.choice([' ', ' (', ', ', ': "', ''])
             post = rng.choice(['', '.', ' end', ', then more', ')', '" ok', '; z', '?x', 's'])
-            kind = rng.choice(['strike', 'esc', 'img', 'nest', 'tlink', 'auto'])
+            kind = rng.choice(['strike', 'esc', 'img', 'nest', 'tlink', 'auto', 'alink'])
             w = ' '.join(rng.choice(EM_INNER) for _ in range(rng.randint(1, 3)))
-            x = ('strike', w) if kind == 'strike' else ('esc', rng.choice('!"#%\'()*+,-./:;=>?@[\\]^_}')) if kind == 'esc' else ('img', w, rng.choice(LINK_DESTS)) if kind == 'img' else _tlink(rng, w) if kind == 'tlink' else ('auto', rng.choice(['http', 'https', 'ftp', 'mailto', 'x-1', 'a0']), rng.choice(['//ex.am/a-b?c=d#e', '//user@host.ex/p', 'me@ex.am', '//h', '', '/p/q.html', '//é.ex/中', 'a+b,c;d'])) if kind == 'auto' else None
+            x = ('strike', w) if kind == 'strike' else ('esc', rng.choice('!"#%\'()*+,-./:;=>?@[\\]^_}')) if kind == 'esc' else ('img', w, rng.choice(LINK_DESTS)) if kind == 'img' else _tlink(rng, w) if kind == 'tlink' else ('alink', w, rng.choice(ANGLE_DESTS)) if kind == 'alink' else ('auto', rng.choice(['http', 'https', 'ftp', 'mailto', 'x-1', 'a0']), rng.choice(['//ex.am/a-b?c=d#e', '//user@host.ex/p', 'me@ex.am', '//h', '', '/p/q.html', '//é.ex/中', 'a+b,c;d'])) if kind == 'auto' else None
             if kind == 'nest':          # an emphasised phrase holding emphasised phrases: (char, run length, text before, phrases, text after)
                 aw = lambda: ' '.join(rng.choice([x_ for x_ in EM_INNER if x_[0].isalnum() and x_[-1].isalnum()]) for _ in range(rng.randint(1, 2)))
                 phs = [(rng.choice('*_'), rng.choice([1, 2]), aw(), rng.choice([' and ', ', ', '. Then ', ' (', ') ', ': "', '" ', ' '])) for _ in range(rng.randint(0, 3))]
@@ -224,7 +224,7 @@ def frag_gallina(t):
         return '(FTick %d %s %d %s %s)' % (ord(t[1][0]), _zl(t[1][1:]), t[4] - 1, _zl(t[2]), _zl(t[3]))
     if t[0] == 'o':
         x = t[2]
-        gx = '(IStrike %s)' % _zl(x[1]) if x[0] == 'strike' else '(IEsc %d)' % ord(x[1]) if x[0] == 'esc' else '(IImg %s %s)' % (_zl(x[1]), _zl(x[2])) if x[0] == 'img' else '(ILinkT %s %s %d %s)' % (_zl(x[1]), _zl(x[2]), ord(x[4]), _zl(x[3])) if x[0] == 'tlink' else '(IAuto %d %s %s)' % (ord(x[1][0]), _zl(x[1][1:]), _zl(x[2])) if x[0] == 'auto' else \
+        gx = '(IStrike %s)' % _zl(x[1]) if x[0] == 'strike' else '(IEsc %d)' % ord(x[1]) if x[0] == 'esc' else '(IImg %s %s)' % (_zl(x[1]), _zl(x[2])) if x[0] == 'img' else '(ILinkT %s %s %d %s)' % (_zl(x[1]), _zl(x[2]), ord(x[4]), _zl(x[3])) if x[0] == 'tlink' else '(IAuto %d %s %s)' % (ord(x[1][0]), _zl(x[1][1:]), _zl(x[2])) if x[0] == 'auto' else '(ILinkA %s %d %s)' % (_zl(x[1]), ord(x[2][0]), _zl(x[2][1:])) if x[0] == 'alink' else \
             '(INest %d %d %s [%s] %s)' % (ord(x[1]), x[2] - 1, _zl(x[3]), '; '.join('(%d, %d%%nat, %s, %s)' % (ord(c), k - 1, _zl(w), _zl(t)) for c, k, w, t in x[4]), _zl(x[5]))
         return '(FOne %d %s %s %s)' % (ord(t[1][0]), _zl(t[1][1:]), gx, _zl(t[3]))
     if t[0] == 'b':
@@ -369,6 +369,10 @@ def code_lines_html(text):
     return out + outside(text[pos:])
 
 
+# destinations written between angle brackets: spaces and parentheses allowed; the first character begins neither an autolink nor an HTML span
+ANGLE_DESTS = ['./my docs/a (b).html', '#part one', '2024/q r', '.hidden', '../up one/x.md', '#', '0', './a(b', '.x)y', '#é 中', './a*b_c.txt', '1 2  3']
+
+
 def _tlink(rng, w):
     """an inline link with a title: the title written between double quotes, single quotes or parentheses - whichever the title's own
     characters allow (CommonMark 6.3: the title may not hold its own delimiter unescaped)"""
@@ -378,6 +382,8 @@ def _tlink(rng, w):
 
 
 def inl_text(x):
+    if x[0] == 'alink':
+        return '[' + x[1] + '](<' + x[2] + '>)'
     if x[0] == 'auto':
         return '<' + x[1] + ':' + x[2] + '>'
     if x[0] == 'tlink':
@@ -412,6 +418,8 @@ def frag_expect(t, ln):
             el = [trees.TAGS['AutoLink'], x[1] + ':' + x[2], False, [[0, x[1] + ':' + x[2]]]]
         elif x[0] == 'tlink':
             el = [trees.TAGS['Link'], x[2], x[3], 'uri', [], x[4], [[0, x[1]]]]
+        elif x[0] == 'alink':
+            el = [trees.TAGS['Link'], x[2], '', 'angle_uri', [], '', [[0, x[1]]]]
         elif x[0] == 'nest':
             kids, g = [], x[3]
             for pc_, pk_, pw_, pt_ in x[4]:
@@ -490,6 +498,8 @@ def frag_html(t, tight):
         if x[0] == 'auto':
             u_ = x[1] + ':' + x[2]
             mid = '<a href="%s">%s</a>' % (html_mod.escape(quote(u_, safe='/#:()*?=%@+,&;')), esc(u_))
+        elif x[0] == 'alink':
+            mid = '<a href="%s">%s</a>' % (html_mod.escape(quote(x[2], safe='/#:()*?=%@+,&;')), esc(x[1]))
         elif x[0] == 'tlink':
             mid = '<a href="%s" title="%s">%s</a>' % (html_mod.escape(quote(x[2], safe='/#:()*?=%@+,&;')), html_mod.escape(x[3]), esc(x[1]))
         elif x[0] == 'nest':
@@ -829,6 +839,15 @@ def run(ctx, only=None):
         url = rng.choice(['http', 'https', 'ftp', 'mailto', 'x-1', 'a0']) + ':' + rng.choice(['//ex.am/a-b?c=d#e', '//user@host.ex/p', 'me@ex.am', '//h', '', '/p/q.html', '//é.ex/中', 'a+b,c;d'])
         ljobs.append((pre + '<' + url + '>' + post + '\n', '<p>' + escq(pre) + '<a href="%s">%s</a>' % (html_mod.escape(quote(url, safe='/#:()*?=%@+,&;')), escq(url)) + escq(post) + '</p>\n'))
         ctx.count('autolink_sentences')
+    # ... of C03_angle_link_in_sentence
+    for _ in range(200 if ctx.quick() else 4000):
+        pre = rng.choice(['', 'see ', 'a: ', '(', 'x ', 'so, ', 'é ', 'me@ex.am: '])
+        post = rng.choice(['', '.', ' end', ', then more', ')', '" ok', '; z', 's'])
+        w = ' '.join(rng.choice(EM_INNER) for _ in range(rng.randint(1, 3)))
+        d = rng.choice(ANGLE_DESTS)
+        ljobs.append((pre + '[' + w + '](<' + d + '>)' + post + '\n',
+                      '<p>' + escq(pre) + '<a href="%s">%s</a>' % (html_mod.escape(quote(d, safe='/#:()*?=%@+,&;')), escq(w)) + escq(post) + '</p>\n'))
+        ctx.count('angle_link_sentences')
     # ... of C03_image_in_sentence
     for _ in range(200 if ctx.quick() else 4000):
         pre = rng.choice(['', 'see ', 'a: ', '(', 'x ', 'so, ', 'é '])
